@@ -13,6 +13,11 @@ A state is identified with the history that reaches it (replayed on fresh real o
 are merged only if their *live* canonical states are equal (files with sizes, blob/stream/file rows,
 completed set, the flags of every blob object the manager holds), so pruning never merges different
 futures.
+
+Side families outside the BFS (both tiers): single wrongly named files (side_sweep) and "many unrecorded files
+at one startup" (many_unrecorded_sweep): N in MANY_UNRECORDED valid finished blob files without any database
+row are present when setup() runs, which drives ensure_completed_blobs_status through its 500-row batching
+path (never reached by the handful of blobs of the BFS alphabets); same oracle, restart + second restart.
 """
 import os
 import shutil
@@ -963,6 +968,49 @@ def side_sweep(item, res):
     drop_scratch()
 
 
+MANY_UNRECORDED = [499, 500, 501, 502, 1003]      # around one and two full batches of ensure_completed_blobs_status
+
+
+def many_unrecorded_sweep(n, res):
+    """Many unrecorded files at one startup: n valid finished blob files (tiny, named by the sha384 of their
+    content) are put into the blob directory behind the manager's back, no database row; then restart and a
+    second restart, judged by judge_setup.  Also with one recorded blob present beforehand."""
+    def clip(text):
+        return text if len(text) <= 400 else text[:400] + '...'
+    for populated in (False, True):
+        w = fresh_world()
+        try:
+            if populated:
+                w.step((('complete', 0), (), False))
+            for i in range(n):
+                data = b'bulk blob %d/%d/%d' % (i, n, SEED)
+                with open(os.path.join(w.bd, hashlib.sha384(data).hexdigest()), 'wb') as f:
+                    f.write(data)
+            w.step((('restart',), (), False))
+            first = w.last_setup
+            w.step((('restart',), (), False))
+            res.count('executions')
+            res.count('evaluations', 2)
+            ctx = {'after': 'many-unrecorded-files', 'how': 'ran'}
+            n_before = len([1 for h, s in first['rows_before'] if s == 'finished'])
+            n_after = len([1 for h, s in first['rows'] if s == 'finished'])
+            if n_after - n_before >= n and n > 500:
+                res.tally('setup_recorded_more_than_500_unrecorded_files_at_once')
+            seen_kinds = set()
+            for sig, what in judge_setup(first, None, ctx) + judge_setup(w.last_setup, first, ctx):
+                if sig['kind'].startswith('interp:'):
+                    res.tally('interpretation_only:' + sig['kind'][7:])
+                    continue
+                if sig['kind'] in seen_kinds:
+                    continue                       # one report per kind and execution
+                seen_kinds.add(sig['kind'])
+                res.violation(sig, clip(what) + f' [{n} unrecorded blob files at one startup, populated={populated}]',
+                              {'many_unrecorded': n, 'populated': populated, 'seed': SEED})
+        finally:
+            w.destroy()
+    drop_scratch()
+
+
 def explore(ctx, cfg, seen, t0, budget):
     """Level-synchronous BFS for one alphabet configuration.  Returns (completed_depth, level_stats, exhausted)."""
     import pickle
@@ -1073,6 +1121,7 @@ def run(ctx):
         if depth < cfg['depth'] and not exhausted:
             all_complete = False
     ctx.pmap(side_sweep, [0])
+    ctx.pmap(many_unrecorded_sweep, list(MANY_UNRECORDED))
     drop_scratch()
     ctx.meta.update(
         rule=('explicit-state BFS over histories of steps; a step = one operation from {complete blob h via the '
@@ -1087,11 +1136,14 @@ def run(ctx):
               'was judged before). States are merged on the live canonical state (directory with sizes, blob/'
               'stream/file rows, completed set, flags of the manager\'s blob objects). distinct_nontrivial = '
               'distinct canonical states reached by a step other than a plain restart. One BFS per alphabet '
-              'configuration listed in bounds.'),
+              'configuration listed in bounds. Outside the BFS: single wrongly named files, and N unrecorded valid blob '
+              'files (N in bounds.many_unrecorded_files_at_one_startup) present at one startup, each followed by '
+              'restart, restart and judged by the same oracle.'),
         exhaustive=all_complete,
         bounds={'configurations': [{k: c.get(k) for k in ('name', 'nplain', 'depth', 'drop_empty', 'complete_stream_blobs',
                                                           'wrong', 'same_object', 'modes', 'begin', 'hashes')}
                                    for c in plan],
+                'many_unrecorded_files_at_one_startup': list(MANY_UNRECORDED),
                 'stream_blobs': 3, 'scaled_MAX_BLOB_SIZE_in_descriptor': SCALED_MAX_BLOB_SIZE,
                 'crash_points': 'every executor-job boundary of every job order (partial-order reduced)'},
         bound_completed=done,
@@ -1121,7 +1173,8 @@ def run(ctx):
                             'setup_under_save_blobs_false_with_unrecorded_file_present',
                             'setup_with_a_blob_file_larger_than_MAX_BLOB_SIZE',
                             'setup_with_an_unrecorded_symlinked_blob_file',
-                            'setup_with_a_recorded_blob_file_replaced_by_a_symlink'],
+                            'setup_with_a_recorded_blob_file_replaced_by_a_symlink',
+                            'setup_recorded_more_than_500_unrecorded_files_at_once'],
     )
 
 
@@ -1132,6 +1185,14 @@ def replay(data):
         from vf.core import Result
         res = Result()
         side_sweep(0, res)
+        for v in res.violations.values():
+            lines.append(v['what'])
+        return bool(res.violations), '\n'.join(lines)
+    if 'many_unrecorded' in data:
+        configure(data.get('seed', 0))
+        from vf.core import Result
+        res = Result()
+        many_unrecorded_sweep(int(data['many_unrecorded']), res)
         for v in res.violations.values():
             lines.append(v['what'])
         return bool(res.violations), '\n'.join(lines)
